@@ -85,24 +85,6 @@ pub fn judge_line(
         rep.judged_weak += 1;
         return;
     }
-    if e.epoch < w.model.epoch {
-        // The last substantive change was committed earlier; the commit under
-        // judgement re-adds the line only because of a whitespace / line-ending
-        // change. The property speaks of the edits leading to *a* commit, so the
-        // cross-commit case is judged by the safety rule only (observation O1).
-        rep.judged_weak += 1;
-        if obs.is_ai() && !w.model.ws_touchers.contains(&obs) && !e.ws_touchers.contains(&obs) {
-            rep.violate_key(
-                format!("{pid}:recommitted-line-attributed-to-uninvolved-session"),
-                format!(
-                    "{ctx}: {source} {path}:{lineno} {content:?}: owner {} (earlier commit), whitespace re-touched by {:?}, reported {}",
-                    fmt_actor(e.last),
-                    w.model.ws_touchers,
-                    fmt_actor(obs)
-                ), &key_of(content));
-        }
-        return;
-    }
     if e.last_was_pure_deletion && (e.prev_chain.contains(&obs) || obs == Actor::Human) {
         // F14: intra-line pure deletion reverts to the previous author
         rep.violate_key(
@@ -125,6 +107,24 @@ pub fn judge_line(
                 fmt_actor(obs),
                 fmt_actor(obs)
             ), &key_of(content));
+        return;
+    }
+    if e.epoch < w.model.epoch {
+        // The last substantive change was committed earlier; the commit under
+        // judgement re-adds the line only because of a whitespace / line-ending
+        // change. The property speaks of the edits leading to *a* commit, so the
+        // cross-commit case is judged by the safety rule only (observation O1).
+        rep.judged_weak += 1;
+        if obs.is_ai() && !w.model.ws_touchers.contains(&obs) && !e.ws_touchers.contains(&obs) {
+            rep.violate_key(
+                format!("{pid}:recommitted-line-attributed-to-uninvolved-session"),
+                format!(
+                    "{ctx}: {source} {path}:{lineno} {content:?}: owner {} (earlier commit), whitespace re-touched by {:?}, reported {}",
+                    fmt_actor(e.last),
+                    w.model.ws_touchers,
+                    fmt_actor(obs)
+                ), &key_of(content));
+        }
         return;
     }
     rep.judged_strict += 1;
